@@ -76,8 +76,10 @@ class StructuredGrammaticalEvolutionRepresentation(
         self.gene_length = gene_length
 
     def create_genotype(self, random: RandomSource, **kwargs) -> Genotype:
-        nodes = [str(node) for node in self.grammar.all_nodes]
-        for node in self.grammar.all_nodes:
+        # all_nodes is a set: iterate it in an order that does not depend on object addresses
+        all_nodes = sorted(self.grammar.all_nodes, key=lambda t: (t.__module__, t.__qualname__))
+        nodes = [str(node) for node in all_nodes]
+        for node in all_nodes:
             arguments = get_arguments(node)
             for _, arg in arguments:
                 if is_generic(arg):
